@@ -83,12 +83,15 @@ inductive Env where
   | req (it : WItem)
   | stall
   | resume
+  /-- the peer sends some other message (not a keep-alive): no effect on the write side -/
+  | other
 deriving Repr
 
 structure Sched where
   s : LState
   stalled : Bool := false
   inflight : Bool := false
+  pending : List WItem := []  -- requests offered while the loop was blocked: their callers wait at `sendQueue`
   trace : List LAct := []     -- the LTS actions performed, oldest first
   bad : Bool := false         -- an action the script asked for was not enabled
 
@@ -97,24 +100,32 @@ def Sched.act (x : Sched) (a : LAct) : Sched :=
   | some s' => { x with s := s', trace := x.trace ++ [a] }
   | none => { x with bad := true }
 
-/-- take acknowledgements while possible -/
+def Sched.blocked (x : Sched) : Bool := x.stalled && x.inflight
+
+/-- maximal progress of the write loop: acknowledgements first (outer select), then — only when the ack queue is
+empty — one waiting request, and again -/
 def Sched.progress : Nat → Sched → Sched
   | 0, x => x
   | fuel+1, x =>
-    if x.s.q = [] ∨ x.s.w.stopped ∨ (x.stalled && x.inflight) then x
-    else
+    if x.s.w.stopped || x.blocked then x
+    else if x.s.q ≠ [] then
       let x1 := x.act .pickAck
       Sched.progress fuel (if x1.stalled then { x1 with inflight := true } else x1)
+    else match x.pending with
+      | [] => x
+      | it :: rest =>
+        let x0 := if x.s.pc = .top then x.act .enter else x
+        let x1 := { (x0.act (.pickReq it)) with pending := rest }
+        Sched.progress fuel (if x1.stalled then { x1 with inflight := true } else x1)
+
+def Sched.fuel (x : Sched) : Nat := 2 * (x.s.q.length + x.pending.length) + 4
 
 def Sched.env (x : Sched) : Env → Sched
-  | .ka id => ((x.act (.ka id))).progress (Gen.ackQueueSz + 2)
-  | .req it =>
-    if x.stalled && x.inflight then { x with bad := true } else
-    let x0 := if x.s.pc = .top then x.act .enter else x
-    let x1 := x0.act (.pickReq it)
-    (if x1.stalled then { x1 with inflight := true } else x1).progress (Gen.ackQueueSz + 2)
+  | .ka id => let y := x.act (.ka id); y.progress y.fuel
+  | .req it => let y := { x with pending := x.pending ++ [it] }; y.progress y.fuel
   | .stall => { x with stalled := true }
-  | .resume => ({ x with stalled := false, inflight := false }).progress (Gen.ackQueueSz + 2)
+  | .resume => let y := { x with stalled := false, inflight := false }; y.progress y.fuel
+  | .other => x
 
 def schedule (version : Nat) (evs : List Env) : Sched := evs.foldl Sched.env { s := LState.init version }
 
